@@ -2,8 +2,17 @@
    PARTIAL: the unbounded theorem `forall m, wf m -> of_bytes (to_bytes m) = DOk (norm m)` is NOT proved
    here (see DESIGN.md); its ingredients below are, and the statement itself is evaluated by the check on
    every generated message, on the implementation's own bytes and decode result. *)
-From MLV Require Import model.Bytes model.Id model.Server model.Bencode model.Krpc model.Check10 proofs.KrpcProofs.
+From MLV Require Import model.Bytes model.Id model.Server model.Bencode model.Krpc model.Check10 proofs.BencodeProofs proofs.KrpcProofs.
 Open Scope N_scope.
+
+(* the byte-level codec round-trips, unboundedly: for every bencode value whose integers fit an i64 (and
+   whose strings are shorter than 2^64 bytes) and whatever follows it in the datagram, the lenient reader
+   returns exactly that value and stops right after it; hence the printer is injective *)
+Theorem C10_bencode_round_trip : forall v rest, ben_wf v = true -> ben_parse (enc v ++ rest) = Some (v, rest).
+Proof. exact ben_parse_enc. Qed.
+
+Theorem C10_bencode_printer_injective : forall v w, ben_wf v = true -> ben_wf w = true -> enc v = enc w -> v = w.
+Proof. exact enc_injective. Qed.
 
 (* canonical bencode: every dictionary the encoder emits (top level, `a`, `r`) has strictly ascending keys *)
 Theorem C10_encoder_dictionaries_sorted : forall m,
@@ -56,6 +65,8 @@ Example C10_two_and_four_byte_tids :
       with DOk m => m_tid m | _ => 0 end) = 1633771873.
 Proof. vm_compute. split; reflexivity. Qed.
 
+Print Assumptions C10_bencode_round_trip.
+Print Assumptions C10_bencode_printer_injective.
 Print Assumptions C10_encoder_dictionaries_sorted.
 Print Assumptions C10_bep_key_names.
 Print Assumptions C10_compact_peer.
